@@ -151,11 +151,13 @@ theorem unchecked_assertions_expected : Gen.uncheckedAssertions =
 
 /-- P3: explicit panics with a payload Run does not convert are confined to the known
     internal-invariant sites ("unknown node type", "here be dragons", stash bookkeeping); the bridged
-    Go containers (type_go_*.go) left this list with fix bb377a4; a new one shows up here -/
+    Go containers (type_go_*.go) left this list with fix bb377a4, the callback wrapper of
+    convertCallParameter with 0277118; catchPanic's two entries re-raise a foreign (non-script) panic
+    unchanged (the second since 73a8a0f, inside the guarded string conversion); a new one shows up here -/
 theorem unconverted_panics_expected : Gen.unconvertedPanics =
     [("New", "error"), ("Value.bool", "string"), ("Value.float64", "error"), ("Value.string", "error"),
      ("Value.toReflectValue", "error"), ("arrayDefineOwnProperty", "string"), ("catchPanic", "interface{}"),
-     ("cloner.property", "error"), ("compiler.parse", "string"), ("compiler.parseExpression", "error"),
+     ("catchPanic", "interface{}"), ("cloner.property", "error"), ("compiler.parse", "string"), ("compiler.parseExpression", "error"),
      ("compiler.parseExpression", "string"), ("compiler.parseStatement", "string"), ("dclStash.createBinding", "error"),
      ("dclStash.getBinding", "error"), ("dclStash.setBinding", "error"), ("getStashProperties", "string"),
      ("objectStash.createBinding", "string"),
@@ -164,7 +166,7 @@ theorem unconverted_panics_expected : Gen.unconvertedPanics =
      ("runtime.cmplEvaluateNodeExpression", "string"), ("runtime.cmplEvaluateNodeExpression", "string"),
      ("runtime.cmplEvaluateNodeObjectLiteral", "string"), ("runtime.cmplEvaluateNodeStatement", "error"),
      ("runtime.cmplEvaluateNodeStatement", "error"), ("runtime.cmplEvaluateNodeUnaryExpression", "string"),
-     ("runtime.convertCallParameter", "error"), ("sameValue", "string"), ("strictEqualityComparison", "string"),
+     ("sameValue", "string"), ("strictEqualityComparison", "string"),
      ("stringToReflectValue", "error"), ("testObjectCoercible", "string"), ("toPrimitive", "string")] := by decide
 
 end OttoVerif.C02.Thm
